@@ -6,14 +6,14 @@
 """
 import concurrent.futures, glob, hashlib, json, os, re, shutil, subprocess, sys, time
 
-VERIF = '/verif'
+VERIF = os.path.dirname(os.path.dirname(os.path.abspath(__file__)))
 REPO = '/repo'
 HARNESS = f'{VERIF}/harness'
 LEAN = f'{VERIF}/lean'
 WORK = f'{HARNESS}/work'
 BIN = f'{WORK}/pgtharness'
 MODEL = f'{LEAN}/.lake/build/bin/pgtmodel'
-GOENV = dict(os.environ, GOFLAGS='-mod=mod', GOPROXY='off', GOSUMDB='off', GOTOOLCHAIN='local')
+GOENV = dict(os.environ, GOFLAGS='-mod=mod', GOPROXY='off', GOSUMDB='off', GOTOOLCHAIN='local', VERIF_ROOT=VERIF)
 ALLOWED_AXIOMS = {'propext', 'Classical.choice', 'Quot.sound'}
 
 sys.path.insert(0, f'{VERIF}/tools')
